@@ -64,7 +64,7 @@ def props_of(m):
             ps |= {'C01', 'C02'}   # a plain write / delete failed
     if base.startswith('counts.'):
         ps.add('C15')
-    if base in ('check_filters', 'check_filter'):
+    if base in ('check_filters', 'check_filter', 'filter_offload_diff'):
         ps.add('C10')
     if base.startswith('blob_bytes'):
         ps.add('C07')
